@@ -14,6 +14,7 @@ import (
 )
 
 type Env struct {
+	foldMode int // 1: foldable predicates in goal position are folded (body proved); 2: unfolded (flag and body assumed)
 	x      *Exec
 	st     *State // current state
 	old    *State // pre-state
@@ -65,6 +66,7 @@ func (x *Exec) contractEnv(fr *Frame, st, old *State, results []Value) *Env {
 func (e *Env) with(st *State) *Env {
 	n := *e
 	n.st = st
+	n.foldMode = 0 // inside old(...) foldable predicates are plain flags
 	return &n
 }
 
@@ -547,6 +549,17 @@ func (e *Env) evalCall(n *ast.CallExpr) TV {
 			p = x.sArr(p)
 		}
 		return TV{tt.Ge(tt.UF("birth$", "Int", p), e.old.clk), tBool}
+	case "loopfresh":
+		// allocated since the enclosing loop was entered (only meaningful in loop invariants)
+		p := asTerm(arg(0).V)
+		if p.Sort == "Slice" {
+			p = x.sArr(p)
+		}
+		c := x.curLoopClk
+		if c == nil {
+			c = e.old.clk
+		}
+		return TV{tt.Ge(tt.UF("birth$", "Int", p), c), tBool}
 	case "existed":
 		p := asTerm(arg(0).V)
 		if p.Sort == "Slice" {
@@ -611,6 +624,9 @@ func (e *Env) evalCall(n *ast.CallExpr) TV {
 		return TV{x.poolOrFresh(e.old, p), tBool}
 	case "desc":
 		return TV{x.descT(asTerm(arg(0).V), asTerm(arg(1).V)), tBool}
+	case "ready":
+		p := asTerm(arg(0).V)
+		return TV{tt.Select(x.heap(e.st, "G$ready", arraySort("Int", "Bool")), p), tBool}
 	case "redeemed":
 		p := asTerm(arg(0).V)
 		h := x.heap(e.st, "G$redeemed", arraySort("Int", "Bool"))
@@ -717,6 +733,23 @@ func (e *Env) evalCall(n *ast.CallExpr) TV {
 			rt := x.lookupType(p.Ret)
 			return TV{tt.UF("spec$"+fname, x.sortOf(rt), args...), rt}
 		}
+		if p.Foldable {
+			a := arg(0)
+			at := asTerm(a.V)
+			flag := tt.Select(x.heap(e.st, "G$ready", arraySort("Int", "Bool")), at)
+			if e.foldMode == 0 || e.depth > 0 {
+				return TV{flag, tBool}
+			}
+			// fold / unfold: one level of the body, evaluated in the same state; nested foldables are flags
+			ne := &Env{x: x, st: e.st, old: e.old, vars: map[string]Value{p.Params[0]: a.V}, vtypes: map[string]types.Type{p.Params[0]: x.lookupType(p.PTypes[0])}, fr: e.fr, depth: e.depth + 1, foldMode: e.foldMode}
+			body := asTerm(ne.eval(p.Body).V)
+			if e.foldMode == 1 {
+				// proving: establishing the flag means proving the body
+				return TV{body, tBool}
+			}
+			// assuming at entry: the flag, and what it stands for
+			return TV{tt.And(flag, body), tBool}
+		}
 		if p.Opaque && !x.revealed(fname) {
 			// uninterpreted over snapshots of the argument values (slices: backing-array content and length)
 			var ts []*Term
@@ -748,10 +781,11 @@ func (e *Env) evalCall(n *ast.CallExpr) TV {
 			}
 			return TV{r, tBool}
 		}
-		if e.depth > 30 {
-			panic("contract: predicate expansion too deep (recursive pred?) " + fname)
+
+		ne := &Env{x: x, st: e.st, old: e.old, vars: map[string]Value{}, vtypes: map[string]types.Type{}, fr: e.fr, depth: e.depth, foldMode: e.foldMode}
+		if e.depth > 60 {
+			panic("contract: predicate expansion too deep " + fname)
 		}
-		ne := &Env{x: x, st: e.st, old: e.old, vars: map[string]Value{}, vtypes: map[string]types.Type{}, fr: e.fr, depth: e.depth + 1}
 		for i, pn := range p.Params {
 			a := arg(i)
 			if p.PTypes[i] != "" {
